@@ -63,6 +63,15 @@ fn case_json(s: &str) -> Value {
 }
 
 pub fn replay(case: &Value) -> Result<Verdict, String> {
+    if case["kind"] == "format-history" {
+        let (a, ab) = (case["format"].as_str().ok_or("format")?, case["extension"].as_str().ok_or("extension")?);
+        for s in [a, ab, a] {
+            if let Verdict::Fail(m) = judge(s) {
+                return Ok(Verdict::Fail(m));
+            }
+        }
+        return Ok(Verdict::Pass { nt: true, class: "history" });
+    }
     if case["kind"] == "fuzz-input" {
         return crate::fuzzrun::replay(case);
     }
@@ -96,6 +105,7 @@ pub fn gen_format() -> BoxedStrategy<String> {
     let piece = prop_oneof![
         4 => prop::sample::select(documented_elements()),
         2 => "[a-z ,:=0-9]{1,4}",
+        1 => prop::sample::select(vec!["é", "日本", "ü ", "😀", "à:", "\u{a0}"]).prop_map(|s| s.to_string()),
         1 => prop::sample::select(vec!["%", "\\", "%{", "}", "%{fid", "%{xattr:", "%q", "%1", "\\1", "\\12", "\\1234", "\\8", "\\q", "%A", "{", "\\777777"]).prop_map(|s| s.to_string()),
         1 => "[%\\\\{}:pAqn0178@xf ]{1,3}",
     ];
@@ -164,6 +174,25 @@ pub fn run(ctx: &Ctx) -> Report {
     total.merge(st);
     total.exhaustive_parts.push("every documented directive/escape alone, between literals, and every ordered pair".into());
 
+    // non-ASCII literal text around every documented element (byte/char offsets), and pairs of
+    // formats of which one is a prefix of the other, parsed back to back in both orders (a result
+    // must not depend on the previous call)
+    let mut st = Stats::new();
+    for e in &els {
+        for s in [format!("é{e}"), format!("日本{e}ü"), format!("{e}é{e}"), format!("profondità: {e}\\n"), format!("😀{e}")] {
+            let v = judge(&s);
+            st.record(&v, stable_hash(&s), true, || case_json(&s));
+        }
+        for suffix in ["%p", "x", " %s\\n", "%%", "\\", "%q"] {
+            let (a, b) = (e.clone(), format!("{e}{suffix}"));
+            for s in [&a, &b, &a, &b, &b, &a] {
+                let v = judge(s);
+                st.record(&v, stable_hash(&(s, "history")), true, || case_json(s));
+            }
+        }
+    }
+    total.merge(st);
+
     let cases = ctx.tier.pick(400_000u32, 4_000_000u32);
     let shards = 16;
     let rnd = run_shards(shards, |shard| {
@@ -173,6 +202,17 @@ pub fn run(ctx: &Ctx) -> Report {
             Verdict::Pass { nt, class } if class.starts_with("rejected") => Verdict::Pass { nt, class: "random: rejected" },
             o => o,
         }, |s| case_json(s));
+        // histories: a format, then an extension of it, then the format again
+        let hist = (gen_format(), gen_format());
+        run_prop(&mut st, ctx.seed, "C14-history", shard as u64, cases / (8 * shards as u32), &hist, |(a, b)| {
+            let ab = format!("{a}{b}");
+            for s in [a, &ab, a] {
+                if let Verdict::Fail(m) = judge(s) {
+                    return Verdict::Fail(format!("after parsing the formats {a:?} and {ab:?} in sequence: {m}"));
+                }
+            }
+            Verdict::Pass { nt: true, class: "history: format, extension, format" }
+        }, |(a, b)| json!({"kind": "format-history", "format": a, "extension": format!("{a}{b}")}));
         st
     });
     total.merge(rnd);
